@@ -477,12 +477,22 @@ def run(ctx):
     r9 = rep.rule('C01.9-short-writes', 'R-GUARD', 'allwrite retries short writes: return 0 only on loop exit len == 0; flush returns its result')
     aw = db.fn('substdo.c', 'allwrite')
     rets = [x for x in aw.all_x() if x.k == 'ret']
+    # the loop that performs the writes: a loop-terminator block whose body reaches the indirect op() call
+    opcalls = [c for c in aw.calls() if c.callee is None]
+    if not opcalls:
+        raise AnalysisBroken('allwrite: indirect write call not found')
+    loopconds = []
+    for bid, b in aw.blocks.items():
+        if b.term and b.term.get('k') in ('while', 'for', 'do') and 'cond' in b.term:
+            loopconds.append((bid, b))
     for x in rets:
         v = x.args[0].const if x.args else None
         if v == 0:
+            # success only by leaving the write loop through its condition (no break/early return)
             g = aw.guards(x) or []
-            ok = any(c.path() == 'P:len' and t is False for c, t in g)
-            r9.check(ok, 'allwrite-return-0-needs-len==0', x.where, 'success return not dominated by the loop exit (len == 0)')
+            lc = {b.term['cond'] for _, b in loopconds}
+            ok = any(c.id in lc and t is False for c, t in g)
+            r9.check(ok, 'allwrite-return-0-only-via-loop-exit', x.where, 'success return is not dominated by the write loop\'s exit condition')
         elif v == -1:
             g = aw.guards(x) or []
             ok = any(c.strip().k == 'bin' and c.strip().op == '==' and c.strip().args[1].const == -1 and t is True for c, t in g)
